@@ -254,14 +254,6 @@ def finding_of_value(k, name, stored):
     if k in ('space', 'spaceSet'):
         if any(e == '' or any(c.isspace() for c in e) for e in stored):
             return 'C15-list-element-separator'
-    if k == 'normalized':
-        w = wrap_width(name)
-        quoted = bool(stored) and stored[0] == stored[-1] and stored[0] in '\'"'      # String._needsQuoting (blank ends cannot occur here)
-        ser = (repr(stored) if quoted else stored).encode('unicode_escape').decode()
-        if w <= 0:
-            return 'C15-normalized-wrap'
-        if len(ser) > w and (any(len(x) > w for x in ser.split(' ')) or '-' in ser):
-            return 'C15-normalized-wrap'
     return None
 
 def finding_of_names(names):
@@ -294,6 +286,14 @@ def stream_codec(I, R, r, n):
         else:
             R.add(Case({'op': 'ue_dec', 's': t}, impl=d2, kind='codec', tags=tg), 'ue_dec\t' + wire.enc(t),
                   post_unm(lambda c: unm_justified_codec(c.input['s'])))
+        if r.random() < 0.3:
+            import textwrap
+            wtext = ' '.join(r.choice(['a', 'bb', 'well-known', 'x' * r.randint(1, 12), '-', '--', 'q-', 'é', '\\\\']) for _ in range(r.randint(0, 12)))
+            wtext = wtext.encode('unicode_escape').decode()
+            ww = r.randint(1, 14)
+            R.add(Case({'op': 'wrap', 'width': ww, 'text': wtext}, kind='codec', tags=('wrap',),
+                       impl=wire.enc_list(textwrap.wrap(wtext, width=ww, break_long_words=False, break_on_hyphens=False))),
+                  'wrap\t%d\t%s' % (ww, wire.enc(wtext)))
         rp = repr(s)
         back = I.evallit(rp)
         ok = (back == canon_res('ok', s))
@@ -414,13 +414,10 @@ def stream_values(I, R, r, nbatches, per_batch):
                            tags=('str-' + k,) + (('quoted',) if k in STR_CLASSES and node_str != stored else ())),
                       'val_str\t%s\t%s\t%s' % (mk, pr, enc_val(stored)))
                 if k == 'normalized':
-                    import textwrap
                     esc = I.registry.encoder(node_str)[0].decode()
-                    tw = textwrap.TextWrapper(width=max(1, wrap_width(full)))
-                    chunks = tw._split_chunks(tw._munge_whitespace(esc))
-                    R.add(Case(dict(inp, op='ns_ser', chunks=chunks), impl='raise' if ser is None else 'ok\t' + wire.enc(ser), kind='value',
+                    R.add(Case(dict(inp, op='ns_ser'), impl='raise' if ser is None else wire.enc(ser), kind='value',
                                tags=('ns-ser', 'ns-lines%d' % min(3, (ser or '').count('\n') + 1)) + (('ns-raise',) if ser is None else ())),
-                          'ns_ser\t%s\t%s' % (wire.enc(full), wire.enc_list(chunks)))
+                          'ns_ser\t%s\t%s' % (wire.enc(full), wire.enc(esc)))
                 if ser is not None and (k != 'normalized' or '\n' not in ser):
                     R.add(Case(dict(inp, op='val_ser'), impl=wire.enc(ser), kind='value', tags=('ser-' + k,)),
                           'val_ser\t%s\t%s\t%s' % (mk, pr, enc_val(stored)))
@@ -786,8 +783,6 @@ def tree_text(r, k):
 def tree_safe_text(k, text):
     """texts on which the model's set() answers inside its fragment (a history must stay in step)"""
     if unm_justified_codec(text): return False
-    if k == 'normalized' and len(text.encode('unicode_escape')) > 30:
-        return False      # would be wrapped by serialize(): the history protocol carries no textwrap chunks (value stream covers wrapping)
     if k in STR_CLASSES:
         t = strset_text(k, text)
         return not unm_justified_lit(t)
@@ -1043,14 +1038,6 @@ def stream_tree(I, R, r, n_hist, maxops=14):
 def tree_post(outs, c, lines):
     """model output lines for one history"""
     outs = list(outs)
-    if c.input['class'] == 'normalized':
-        # NormalizedString.serialize wraps long texts: the history protocol carries no textwrap chunks,
-        # so the saved text is compared only when every line fits (wrapping is compared by the value stream)
-        impl = c.impl.split('\n'); changed = False
-        for i, l in enumerate(lines):
-            if l == 't_save' and i < len(impl) and i < len(outs) and '5c0a' in impl[i]:
-                impl[i] = outs[i] = 'wrapped'; changed = True
-        if changed: c.impl = '\n'.join(impl)
     # the model's saved text carries the header: keep the value lines only
     for i, o in enumerate(outs):
         if lines[i] == 't_save' and o != 'bad-op':
